@@ -55,6 +55,8 @@ def api_consistency(obj, new, text, dump_kwargs=None, before=None, pipe=True):
     work = tempfile.mkdtemp(prefix="api-", dir=os.path.join(VERIF, ".work"))
     try:
         p1, p2 = os.path.join(work, "by-path"), os.path.join(work, "by-file")
+        with open(p1, "w") as f:             # the path is re-published in place: an older, longer file is already there
+            f.write("{\"stale\": \"" + "x" * (len(text) + 4096) + "\"}\n")
         obj.dump(p1, **kw)
         with open(p2, "w") as f:
             obj.dump(f, **kw)
